@@ -29,6 +29,8 @@ func init() {
 	ruleText["R08.1"] = "a run-time closure (func literal whose first parameter is *frame, and everything nested in it) never assigns, increments, element- or field-stores, copies into, deletes from or appends to a variable captured from the enclosing generator function, directly or through a local alias"
 	ruleText["R08.2"] = "the frame passed to runCfg is the result of newFrame or (*frame).clone executed in the same function invocation (or the root frame in (*Interpreter).run), never a captured or parameter frame"
 	ruleText["R08.4"] = "every map stored into Interpreter.binPkg[k] is created (make/literal) by the storing function, never the map received through Use: independent interpreters must not share a symbol table that fixStdlib later overrides per interpreter"
+	ruleText["R08.5"] = "no function reachable on the static call graph from a run-time closure (function literal taking a *frame) updates a map held in a field of itype, node, symbol, scope or Interpreter (the walk stops at (*itype).finalize; reviewed exceptions listed with their reason)"
+	ruleText["R08.6"] = "no run-time closure performs reflect.Value.Recv or Send on a channel under a path condition that reads the same channel's Len or Cap (check-then-act)"
 	ruleText["R08.3"] = "every Lock/RLock of a sync.Mutex/RWMutex field is followed by the matching Unlock/RUnlock of the same receiver on every control-flow path to a function exit (or a deferred unlock is registered); guarded fields are accessed only while their mutex is held"
 }
 
@@ -211,6 +213,14 @@ func capturedWrites(info *types.Info, pkgScope *types.Scope, fl *ast.FuncLit) []
 						}
 						recv = unparen(cs.X)
 					}
+					// t[i].Set(...): an element of a captured vector of values
+					if ix, ok := recv.(*ast.IndexExpr); ok {
+						if id, ok := unparen(ix.X).(*ast.Ident); ok && types.TypeString(info.TypeOf(id), nil) == "[]reflect.Value" {
+							if cv := captured(id); cv != nil {
+								out = append(out, capWrite{Pos: x.Pos(), Var: cv, What: "reflect " + se.Sel.Name + " on an element of the captured vector " + types.ExprString(ix.X)})
+							}
+						}
+					}
 					if id, ok := recv.(*ast.Ident); ok && types.TypeString(info.TypeOf(id), nil) == "reflect.Value" {
 						if cv := captured(id); cv != nil {
 							out = append(out, capWrite{Pos: x.Pos(), Var: cv, What: "reflect " + se.Sel.Name + " on the captured value " + types.ExprString(se.X)})
@@ -313,6 +323,8 @@ func runC08(c *Config, r *Report) {
 	c08R1(ic, r)
 	c08R2(ic, r)
 	c08R3(ic, r)
+	c08R5(ic, r)
+	c08R6(ic, r)
 	checkBinPkgOwnership(ic, r, "R08.4")
 	if c.Tier == "thorough" {
 		ic386, err := loadInterp(c, false, "GOARCH=386")
@@ -1048,4 +1060,173 @@ func mutexOwner(call *ast.CallExpr) ast.Expr {
 		return nil
 	}
 	return inner.X
+}
+
+// c08R5: the data structures built by the compiler (types, nodes, symbols, scopes) are shared
+// by every goroutine that executes the program, and by host goroutines calling exported
+// functions concurrently. Code reachable on the static call graph from a run-time closure (a
+// function literal taking a *frame) therefore does not insert into, or delete from, a map held
+// in a field of such a structure: a lazily filled per-type table (method cache, wrapper cache)
+// is written by the first concurrent callers without synchronisation (fatal error: concurrent
+// map writes). Maps created by the running function itself, and maps reached under a held
+// mutex of the same structure, are not concerned.
+func c08R5(ic *IC, r *Report) {
+	if ic.SP == nil {
+		r.Errorf("R08.5: SSA form not loaded")
+		return
+	}
+	g := buildSGraph(ic.SP)
+	// roots: function literals whose first parameter is *frame (run-time closures)
+	var roots []*ssa.Function
+	for _, fn := range g.Funcs {
+		if fn.Parent() == nil || fn.Signature.Params().Len() == 0 {
+			continue
+		}
+		if isNamedPtr(fn.Signature.Params().At(0).Type(), "frame") {
+			roots = append(roots, fn)
+		}
+	}
+	reach := map[*ssa.Function]*ssa.Function{}
+	var q []*ssa.Function
+	for _, rt := range roots {
+		reach[rt] = nil
+		q = append(q, rt)
+	}
+	for len(q) > 0 {
+		f := q[0]
+		q = q[1:]
+		for _, e := range g.Out[f] {
+			if e.To.Pkg != ic.SP {
+				continue
+			}
+			if runtimeReachCuts[ssaFuncName(e.To)] != "" {
+				continue
+			}
+			if _, ok := reach[e.To]; !ok {
+				reach[e.To] = f
+				q = append(q, e.To)
+			}
+		}
+		for _, a := range f.AnonFuncs {
+			if _, ok := reach[a]; !ok {
+				reach[a] = f
+				q = append(q, a)
+			}
+		}
+	}
+	shared := map[string]bool{"itype": true, "node": true, "symbol": true, "scope": true, "Interpreter": true}
+	n := 0
+	var bad []string
+	seenKey := map[string]bool{}
+	for fn := range reach {
+		for _, b := range fn.Blocks {
+			for _, ins := range b.Instrs {
+				mu, ok := ins.(*ssa.MapUpdate)
+				if !ok {
+					continue
+				}
+				for _, o := range origins(mu.Map, map[ssa.Value]bool{}) {
+					ld, ok := o.(*ssa.UnOp)
+					if !ok {
+						continue
+					}
+					fa, ok := ld.X.(*ssa.FieldAddr)
+					if !ok {
+						continue
+					}
+					pt, ok := fa.X.Type().Underlying().(*types.Pointer)
+					if !ok {
+						continue
+					}
+					named, ok := pt.Elem().(*types.Named)
+					if !ok || !shared[named.Obj().Name()] {
+						continue
+					}
+					st := named.Underlying().(*types.Struct)
+					n++
+					root := fn
+					for root.Parent() != nil {
+						root = root.Parent()
+					}
+					key := ssaFuncName(root) + "/" + named.Obj().Name() + "." + st.Field(fa.Field).Name()
+					if !seenKey[key] {
+						seenKey[key] = true
+						bad = append(bad, key+"@"+ic.pos(mu.Pos()))
+						var chain []string
+						for x := fn; x != nil; x = reach[x] {
+							chain = append(chain, ssaFuncName(x))
+						}
+						r.Note("R08.5 path to %s: %s", key, strings.Join(chain, " <- "))
+					}
+				}
+			}
+		}
+	}
+	sort.Strings(bad)
+	for _, b := range bad {
+		parts := strings.SplitN(b, "@", 2)
+		if why, ok := sharedMapWriteExceptions[parts[0]]; ok {
+			r.Pass("R08.5", parts[0]+"/shared-map-written-at-run-time", parts[1], "frozen exception: "+why)
+			continue
+		}
+		r.Fail("R08.5", parts[0]+"/shared-map-written-at-run-time", parts[1],
+			"code reachable from the run-time closures updates the map "+strings.SplitN(parts[0], "/", 2)[1]+" of a structure shared by every goroutine executing the program ("+strings.SplitN(parts[0], "/", 2)[0]+"): the first concurrent executions write the map without synchronisation (fatal error: concurrent map writes, or a lookup missing a method)")
+	}
+	r.Info["functions_reachable_from_run_time_closures"] = len(reach)
+	if len(bad) == 0 {
+		r.Pass("R08.5", "runtime/no-shared-map-update", "", fmt.Sprintf("%d functions reachable from %d run-time closures: no update of a map field of itype, node, symbol or scope", len(reach), len(roots)))
+	}
+	if len(roots) < 300 {
+		r.Errorf("R08.5: only %d run-time closures found", len(roots))
+	}
+}
+
+// runtimeReachCuts: functions at which the run-time reachability stops, with the reason.
+var runtimeReachCuts = map[string]string{
+	"(*itype).finalize": "re-parses a type that was incomplete when first met; every type is complete once the program runs (the walk returns at once), so the compiler behind it is not run-time code",
+}
+
+// sharedMapWriteExceptions: map fields of shared structures legitimately updated from code the
+// call graph reaches from run-time closures, keyed function/type.field, with the reason.
+var sharedMapWriteExceptions = map[string]string{}
+
+// c08R6: check-then-act on a channel. The number of buffered values read with
+// reflect.Value.Len is stale as soon as it is read: a blocking Recv (or Send) taken because
+// Len() was positive blocks when another consumer took the value in between, and then wakes on
+// close with a zero value (one extra iteration of `for v := range ch`). No run-time closure
+// performs reflect.Value.Recv/Send on a channel under a condition on that channel's Len or Cap.
+func c08R6(ic *IC, r *Report) {
+	info := ic.Info
+	n, nBad := 0, 0
+	for _, name := range sortedKeys(ic.F) {
+		fi := ic.F[name]
+		if fi.Decl.Body == nil {
+			continue
+		}
+		for _, fl := range (&c02ctx{ic: ic}).closuresOf(fi) {
+			for _, c := range callsIn(info, fl.Body, true, "reflect.Value.Recv", "reflect.Value.Send") {
+				n++
+				ch := types.ExprString(unparen(c.Fun).(*ast.SelectorExpr).X)
+				for _, g := range pathGuards(fl.Body, c) {
+					stale := false
+					ast.Inspect(g.cond, func(m ast.Node) bool {
+						if cc, ok := m.(*ast.CallExpr); ok && isCallTo(info, cc, "reflect.Value.Len", "reflect.Value.Cap") {
+							if types.ExprString(unparen(cc.Fun).(*ast.SelectorExpr).X) == ch {
+								stale = true
+							}
+						}
+						return true
+					})
+					if stale {
+						nBad++
+						r.Fail("R08.6", fmt.Sprintf("%s/check-then-act-on-channel#%d", name, nBad), ic.pos(c.Pos()),
+							"generator "+name+" performs the blocking "+types.ExprString(c)+" because "+types.ExprString(g.cond)+" held a moment earlier: with several goroutines on the same channel the value may be gone, the operation blocks, and on close it returns a zero value that the loop body then processes (for v := range ch runs once too often)")
+					}
+				}
+			}
+		}
+	}
+	if nBad == 0 {
+		r.Pass("R08.6", "runtime/no-check-then-act-on-channels", "", fmt.Sprintf("%d blocking channel operations in run-time closures, none conditional on the channel's Len or Cap", n))
+	}
 }
